@@ -6,6 +6,7 @@ import (
 	"fmt"
 	"math/big"
 	"regexp"
+	"runtime/debug"
 	"strings"
 
 	"github.com/Oneledger/protocol/storage"
@@ -25,6 +26,8 @@ type Divergence struct {
 	// Diag marks differences the property text cannot arbitrate (reported as
 	// diagnostics, never as violations).
 	Diag bool `json:"diag,omitempty"`
+	// Fixed: the context is final (callers must not rename it)
+	Fixed bool `json:"-"`
 }
 
 func (d *Divergence) Signature() string {
@@ -133,19 +136,15 @@ func contextForHint(h *History, w *AdapterWorld, u *Universe, addrs []ethcmn.Add
 			}
 		}
 	}
-	switch {
-	case any(h.DestroyedThisTx):
+	// the account's deletion history, coarsely: few, stable names
+	if any(h.DestroyedThisTx) || any(h.DestroyedSameBlock) || any(h.DestroyedEarlier) {
 		return "selfdestruct"
-	case any(h.DestroyedSameBlock):
-		return "touch-destroyed-same-block"
-	case any(h.DestroyedEarlier):
-		return "touch-destroyed-later-block"
-	}
-	if any(h.ResetThisTx) || any(h.ResetEarlier) {
-		return "account-recreated"
 	}
 	if any(h.EmptiedThisTx) || any(h.EmptiedEarlier) {
 		return "emptied-account-deleted"
+	}
+	if any(h.ResetThisTx) || any(h.ResetEarlier) {
+		return "account-recreated"
 	}
 	for _, a := range addrs {
 		if keeperTombstoned(w, a) {
@@ -281,7 +280,7 @@ func compareState(w *AdapterWorld, r *RefWorld, u *Universe, h *History, phase s
 	var cur string
 	defer func() {
 		if p := recover(); p != nil {
-			div = &Divergence{Rule: "crash", Context: "observe-" + phase, Trait: panicTrait(p), What: fmt.Sprintf("adapter panicked while reading %s after %s: %v", cur, phase, p)}
+			div = &Divergence{Rule: "crash", Context: panicWhere("observe"), Trait: panicTrait(p), What: fmt.Sprintf("adapter panicked while reading %s after %s: %v", cur, phase, p), Fixed: true}
 		}
 	}()
 	obs := w.Observer()
@@ -306,8 +305,12 @@ func compareState(w *AdapterWorld, r *RefWorld, u *Universe, h *History, phase s
 			}
 			continue
 		}
-		return &Divergence{Rule: "final-state", Context: contextFor(h, w, u, []ethcmn.Address{a}, "plain"), Trait: fields[0],
+		d := &Divergence{Rule: "final-state", Context: contextFor(h, w, u, []ethcmn.Address{a}, "plain"), Trait: fields[0],
 			What: fmt.Sprintf("account %s after %s: %s", a.Hex(), phase, detail)}
+		if strings.Contains(d.Trait, "tombstone-bytes") {
+			d.Context, d.Fixed = "slot-cleared-same-block", true
+		}
+		return d
 	}
 	for _, a := range u.Addrs() {
 		cur = a.Hex()
@@ -394,6 +397,30 @@ func errClass(err error) string {
 		msg = msg[:i]
 	}
 	return slug(hexRun.ReplaceAllString(msg, ""), 48)
+}
+
+// panicWhere names the innermost function of the code under test on the
+// panicking stack (must be called from the deferred recover).
+func panicWhere(fallback string) string {
+	lines := strings.Split(string(debug.Stack()), "\n")
+	seenPanic := false
+	for _, l := range lines {
+		if strings.HasPrefix(l, "panic(") {
+			seenPanic = true
+			continue
+		}
+		if !seenPanic || strings.HasPrefix(l, "\t") {
+			continue
+		}
+		if i := strings.Index(l, "github.com/Oneledger/protocol/"); i >= 0 {
+			fn := l[i+len("github.com/Oneledger/protocol/"):]
+			if j := strings.LastIndex(fn, "("); j > 0 {
+				fn = fn[:j]
+			}
+			return slug(fn, 48)
+		}
+	}
+	return fallback
 }
 
 func panicTrait(p interface{}) string {
